@@ -188,6 +188,20 @@ def object_menu(uid, idx):
         add("DeriveKey/method-%s-hmacalg" % me, {"op": "DeriveKey", "uids": [uid], "method": me, "attrs": la,
                                                  "dp": {"params": {"alg": "HMAC_SHA256"}, "data": "0102", "salt": "0304", "iter": 1}})
     dv = {"params": {"hash": "SHA_256"}, "data": "0102"}
+    # every derivation method x {derivation data, salt, iteration count, IV} present / absent
+    for me in DERIVATION_METHODS:
+        for bits in range(16):
+            dp = {"params": {"hash": "SHA_256", "alg": "AES", "mode": "CBC", "pad": "PKCS5"}}
+            if bits & 1:
+                dp["data"] = blk
+            if bits & 2:
+                dp["salt"] = "0102030405060708"
+            if bits & 4:
+                dp["iter"] = 2
+            if bits & 8:
+                dp["iv"] = blk
+            add("DeriveKey/fields-%s-%d" % (me, bits), {"op": "DeriveKey", "uids": [uid], "method": me,
+                                                       "attrs": la, "dp": dp})
     add("DeriveKey/secret-data", {"op": "DeriveKey", "otype": "SecretData", "uids": [uid], "method": "HASH", "attrs": [["Cryptographic Length", 64]], "dp": dv})
     add("DeriveKey/secret-data-with-alg", {"op": "DeriveKey", "otype": "SecretData", "uids": [uid], "method": "HASH", "attrs": la, "dp": dv})
     add("DeriveKey/otype-public", {"op": "DeriveKey", "otype": "PublicKey", "uids": [uid], "method": "HASH", "attrs": la, "dp": dv})
@@ -396,6 +410,20 @@ def store_menu(idx, v):
     add("Locate/dates-reversed", {"op": "Locate", "attrs": [["Initial Date", 1600000050], ["Initial Date", 1600000000]]})
     for off, mx in ((0, 0), (0, 1), (1, None), (None, 2), (100, 5), (-1, 2), (2, -1)):
         add("Locate/page-%s-%s" % (off, mx), {"op": "Locate", "offset": off, "max": mx})
+    # usage-mask filters with every single bit of the 32, bits no enumeration member names
+    # (vendor extensions), all bits, and combinations with a named bit
+    for bit in range(32):
+        add("Locate/mask-bit-%d" % bit, {"op": "Locate", "attrs": [["Cryptographic Usage Mask", 1 << bit]]})
+    for mv in (0, 0x7fffffff, 0x01000004, 0x42000000, 0x00300000 | 12, 0x000fffff):
+        add("Locate/mask-0x%x" % mv, {"op": "Locate", "attrs": [["Cryptographic Usage Mask", mv]]})
+        add("Locate/mask-0x%x-and-type" % mv, {"op": "Locate", "attrs": [["Object Type", "SymmetricKey"],
+                                                                         ["Cryptographic Usage Mask", mv]]})
+    # boundary values of the other filter types
+    for ln in (0, 1, -1, 2 ** 31 - 1, -2 ** 31):
+        add("Locate/length-%d" % ln, {"op": "Locate", "attrs": [["Cryptographic Length", ln]]})
+    for dt in (0, 1, -1, 2 ** 31, 2 ** 62):
+        add("Locate/date-%d" % dt, {"op": "Locate", "attrs": [["Initial Date", dt]]})
+        add("Locate/date-range-0-%d" % dt, {"op": "Locate", "attrs": [["Initial Date", 0], ["Initial Date", dt]]})
     add("Locate/storage-status", {"op": "Locate", "ssm": 1})
     add("Locate/group-member-fresh", {"op": "Locate", "ogm": "GROUP_MEMBER_FRESH"})
     add("Locate/state-twice", {"op": "Locate", "attrs": [["State", "ACTIVE"], ["State", "PRE_ACTIVE"]]})
